@@ -150,3 +150,8 @@ package thriftudp
 //@   loop 1 invariant @count len(calls) == old(len(calls)) + rangeindex + 1
 //@   loop 1 invariant @prefix prefix_kept()
 //@   loop 1 invariant @each forall j int :: 0 <= j && j <= rangeindex ==> calls[old(len(calls)) + j] == ev(thrift.TTransport.Open, p.transports[j]) && res0(old(len(calls)) + j) == 0
+
+// ASSUMED contract of a standard-library function a maintainer may reach for in
+// this package: comparing errors has no effects.
+//@ extern func errors.Is
+//@   ensures @no_effects no_calls()
